@@ -16,8 +16,10 @@ Correspondence:
 """
 from __future__ import annotations
 
+import asyncio
 import io
 import json
+import re
 
 from .. import coqterm as T
 from .. import maildir_model as MM
@@ -224,6 +226,11 @@ def fixed_histories() -> list:
          ('expunge',), A([], ('', 4)), ('check',), ('unsubscribe', ['foo'])],
         [('create', ['foo']), A(['foo'], ('', 1)), A(['foo'], ('', 2)), ('select', ['foo']),
          ('move', [1, 2], []), ('close',), ('select', []), ('store', [1], '=', 'DR')],
+        # a destination whose uid list still records an expunged message (no
+        # CHECK since), then MOVE / COPY / APPEND into it
+        [('create', ['foo']), A(['foo'], ('', 1), ('', 2)), A([], ('', 3), ('S', 4)),
+         ('select', ['foo']), ('store', [1], '+', 'T'), ('expunge',), ('select', []),
+         ('move', [1], ['foo']), ('copy', [2], ['foo']), A(['foo'], ('F', 5))],
         # records dropped by CHECK, then new messages: no uid may come back
         [A([], ('', 1), ('', 2), ('', 3)), ('select', []), ('store', [1, 2], '+', 'T'),
          ('expunge',), ('check',), A([], ('', 4)), A([], ('F', 5)), ('check',)],
@@ -364,6 +371,136 @@ def section_crashes(ctx) -> None:
                                            'server serves for some k'})
 
 
+# ------------------------------------------------ two connections, one folder
+def _literal(cid: int) -> bytes:
+    return M.message_bytes(cid)
+
+
+async def _contended(layout: str, variant: str) -> list:
+    """Two sessions (each with its own MailboxSet, as every connection has)
+    update the uid list of one folder at the same moment: B's command is run
+    in a second thread at the instant A is inside "lock; read; modify; write;
+    unlock" (a hook on UidList.file_write; A waits a moment for it).  The
+    only thing that serialises them is the lock file: with a working lock B
+    waits.  Then the server is restarted and every acknowledged uid must lead
+    to the message it was announced for, no uid acknowledged twice."""
+    import os
+    import threading
+    from pymap.backend.maildir import Session, FilterSet
+    from pymap.backend.maildir.layout import MaildirLayout
+    from pymap.backend.maildir.mailbox import Maildir, MailboxSet
+    from pymap.backend.maildir.uidlist import UidList
+    from pymap.parsing.message import AppendMessage
+    from pymap.parsing.specials import FetchRequirement, SequenceSet
+    from ..pymap_env import MaildirEnv
+    env = await MaildirEnv(layout).start()
+    path = os.path.join(env.base, 'u1')
+
+    def connect():
+        lay = MaildirLayout.get(path, layout, Maildir)
+        maildir = Maildir(path, create=not os.path.exists(path))
+        return Session('u1', env.config, MailboxSet(maildir, lay), FilterSet(path))
+
+    async def listing(session, mailbox):
+        snapshot, selected = await session.select_mailbox(mailbox, readonly=True)
+        msgs, _ = await session.fetch_messages(selected, SequenceSet.all(), False)
+        out = {}
+        for _, msg in msgs:
+            loaded = await msg.load_content(FetchRequirement.CONTENT)
+            out[msg.uid] = M.cid_of(bytes(loaded))
+        return snapshot.uid_validity, out, selected
+
+    fails: list = []
+    acks: list = []          # (who, validity, [uids], [cids])
+    try:
+        a, b = connect(), connect()
+        res, _ = await a.append_messages('INBOX', [AppendMessage(_literal(1)),
+                                                   AppendMessage(_literal(2))])
+        acks.append(('A', res.validity, sorted(res.uids), [1, 2]))
+        await listing(b, 'INBOX')
+        target = 'INBOX'
+        if variant == 'copy':
+            await a.create_mailbox('dst')
+            target = 'dst'
+            await listing(b, 'dst')
+            await listing(a, 'dst')
+
+        def b_command():
+            try:
+                r, _ = asyncio.run(b.append_messages(target, [AppendMessage(_literal(9))]))
+                acks.append(('B', r.validity, sorted(r.uids), [9]))
+            except BaseException as exc:
+                fails.append(('served_after_restart', f'B: APPEND failed: {exc!r}',
+                              {'kind': 'command_failed'}))
+        thread_b = threading.Thread(target=b_command)
+        real = UidList.file_write
+        state = {'armed': True}
+
+        def file_write(self):
+            if state['armed'] and threading.current_thread() is not thread_b:
+                state['armed'] = False
+                thread_b.start()
+                thread_b.join(0.6)
+            return real(self)
+        UidList.file_write = file_write
+        try:
+            if variant == 'append':
+                res, _ = await a.append_messages('INBOX', [AppendMessage(_literal(3)),
+                                                           AppendMessage(_literal(4))])
+                acks.append(('A', res.validity, sorted(res.uids), [3, 4]))
+            else:
+                _v, _o, selected = await listing(a, 'INBOX')
+                _snap, selected = await a.select_mailbox('INBOX')
+                res, _ = await a.copy_messages(selected, SequenceSet.all(uid=True), 'dst')
+                mm = re.match(rb'\[COPYUID (\d+) \S+ (\S+)\]', bytes(res))
+                dst_uids = []
+                for part in mm.group(2).split(b','):
+                    lo, _, hi = part.partition(b':')
+                    dst_uids += list(range(int(lo), int(hi or lo) + 1))
+                acks.append(('A', int(mm.group(1)), sorted(dst_uids), [1, 2]))
+        finally:
+            UidList.file_write = real
+        thread_b.join(30)
+        if thread_b.is_alive():
+            fails.append(('served_after_restart', 'B never finished', {'kind': 'command_hangs'}))
+        # restart: fresh objects on the same directory
+        validity, served, _sel = await listing(connect(), target)
+        seen: dict = {}
+        expect = 0
+        in_target = [x for x in acks if not (variant == 'copy' and x is acks[0])]
+        for who, val, uids, cids in in_target:
+            expect += len(cids)
+            for uid in uids:
+                if uid in seen:
+                    fails.append(('uid_unique', f'uid {uid} of {target} was acknowledged twice: '
+                                  f'to {seen[uid]} and to {who}', {'kind': 'uid_acked_twice'}))
+                seen[uid] = who
+            if val != validity:
+                continue
+            got = sorted(served.get(uid, -1) for uid in uids)
+            if got != sorted(cids):
+                fails.append(('served_after_restart',
+                              f'{who} was told uids {uids} for messages {cids} in {target}; after '
+                              f'the restart those uids hold {got}', {'kind': 'acked_not_served'}))
+        if len(served) != expect:
+            fails.append(('served_after_restart', f'{len(served)} messages served in {target}, '
+                          f'{expect} were acknowledged', {'kind': 'lost_message'}))
+    finally:
+        env.close()
+    return fails
+
+
+def section_contention(ctx) -> None:
+    from ..pymap_env import run as arun
+    for layout in ('++', 'fs'):
+        for variant in ('append', 'copy'):
+            fails = arun(_contended(layout, variant), timeout=120)
+            ctx.count(('contended', layout, variant))
+            for clause, text, obs in fails:
+                ctx.failure(clause, f'two connections, {variant} + APPEND, layout {layout}: {text}',
+                            {'layout': layout, 'variant': variant, 'scenario': 'contended'}, obs)
+
+
 def run(ctx) -> None:
     ctx.rule = ('histories of APPEND/STORE/COPY/MOVE/EXPUNGE/CREATE/RENAME/SUBSCRIBE/CHECK on one '
                 'connection of the real maildir backend (fixed ones + seeded random ones, both '
@@ -382,7 +519,7 @@ def run(ctx) -> None:
     ctx.check_proofs(['MaildirFS/Check'])
     timing = ctx.extra.setdefault('section_wall_s', {})
     for name, sec in (('text', section_text), ('histories', section_histories),
-                      ('crashes', section_crashes)):
+                      ('contention', section_contention), ('crashes', section_crashes)):
         t0 = time.time()
         sec(ctx)
         timing[name] = round(time.time() - t0, 1)
